@@ -221,6 +221,53 @@ func runPromGauge(c *core.Ctx) {
 	}
 }
 
+// typeLabels: which constant label v denotes for which dynamic type of the
+// message. The label may be a constant used under a type-switch clause, a
+// variable assigned per clause (phi), or the result of a module helper that
+// maps the message to its label.
+func typeLabels(fn *ssa.Function, v ssa.Value, at *ssa.BasicBlock, msgPath string, depth int) map[string]string {
+	out := map[string]string{}
+	if depth > 2 {
+		return out
+	}
+	switch x := v.(type) {
+	case *ssa.Const:
+		if s, ok := an.ConstStr(x); ok {
+			out[assertedType(fn, at, msgPath)] = s
+		}
+	case *ssa.Phi:
+		for i, e := range x.Edges {
+			for t, l := range typeLabels(fn, e, x.Block().Preds[i], msgPath, depth+1) {
+				out[t] = l
+			}
+		}
+	case *ssa.Call:
+		g := an.StaticCallee(&x.Call)
+		if g == nil || len(g.Blocks) == 0 || g.Pkg == nil || !strings.HasPrefix(g.Pkg.Pkg.Path(), an.ModulePrefix) {
+			return out
+		}
+		gp := ""
+		for i, a := range x.Call.Args {
+			if an.PathOf(a) == msgPath && i < len(g.Params) {
+				gp = "p:" + g.Params[i].Name()
+			}
+		}
+		if gp == "" {
+			return out
+		}
+		for _, rb := range an.ReturnBlocks(g) {
+			rv := an.ReturnValues(an.LastInstr(rb).(*ssa.Return))
+			if len(rv) != 1 {
+				continue
+			}
+			for t, l := range typeLabels(g, rv[0], rb, gp, depth+1) {
+				out[t] = l
+			}
+		}
+	}
+	return out
+}
+
 func runPromLabel(c *core.Ctx) {
 	P := c.P
 	for _, row := range []struct{ counter, hook, iface, labelMethod string }{
@@ -244,8 +291,7 @@ func runPromLabel(c *core.Ctx) {
 			if !ok || len(elems) != 1 {
 				continue
 			}
-			lbl, _ := an.ConstStr(elems[0])
-			t := assertedType(fn, call.Block(), msgP)
+			labels := typeLabels(fn, elems[0], call.Block(), msgP, 0)
 			// followed by Inc
 			inc := false
 			if call.Referrers() != nil {
@@ -256,7 +302,9 @@ func runPromLabel(c *core.Ctx) {
 				}
 			}
 			if inc {
-				got[t] = lbl
+				for t, lbl := range labels {
+					got[t] = lbl
+				}
 			}
 		}
 		tys := msgTypes(P, row.iface)
